@@ -3,7 +3,6 @@
 package main
 
 import (
-	"encoding/json"
 	"fmt"
 	"sort"
 	"strconv"
@@ -304,7 +303,7 @@ func c04Run(r *vkit.Run) {
 
 func c04Replay(r *vkit.Run, v vkit.Violation) *vkit.Violation {
 	var in c04Input
-	if err := json.Unmarshal(v.Input, &in); err != nil {
+	if err := vkit.DecodeInput(v, &in); err != nil {
 		r.HarnessError("bad input: %v", err)
 	}
 	return vkit.ReplayOne(r, func() {
